@@ -24,7 +24,17 @@ func main() {
 	explain := flag.String("explain", "", "re-derive and print a violation replay file")
 	dump := flag.Bool("dump", false, "print all obligations")
 	probe := flag.String("probe", "", "development probes (guardedby)")
+	writeNames := flag.String("write-names", "", "write the declaration snapshot of the repository (reference names for identifier canonicalisation) to this file and exit")
 	flag.Parse()
+	if *writeNames != "" {
+		writeNamesTo = *writeNames
+		if _, err := Load(repoDir(), "", ""); err != nil {
+			fmt.Println(err)
+			os.Exit(2)
+		}
+		fmt.Println("wrote", *writeNames)
+		os.Exit(0)
+	}
 	if *tier == "" {
 		*tier = os.Getenv("VERIF_TIER")
 	}
